@@ -585,7 +585,9 @@ inject:
 	}
 
 	// Can we queue it?
-	if (nni_lmq_put(&s->wmq, m) == 0) {
+	// (Not while older sends are still waiting: growing the send buffer
+	// leaves them in the wait queue, and they must go first.)
+	if (nni_list_empty(&s->waq) && (nni_lmq_put(&s->wmq, m) == 0)) {
 		// Yay, we can.  So we're done.
 		nni_aio_set_msg(aio, NULL);
 		nni_aio_finish(aio, 0, len);
